@@ -359,11 +359,17 @@ class MappingCheckOnly(DeserializationMethod):
             raise bad_type(data, dict)
         item_errors: Optional[ErrorDict] = None
         for key, value in data.items():
+            item_error: Optional[ValidationError] = None
             try:
                 self.key_method.deserialize(key)
+            except ValidationError as err:
+                item_error = err
+            try:
                 self.value_method.deserialize(value)
             except ValidationError as err:
-                item_errors = set_child_error(item_errors, key, err)
+                item_error = merge_errors(item_error, err)
+            if item_error is not None:
+                item_errors = set_child_error(item_errors, key, item_error)
         validate_constraints(data, self.constraints, item_errors)
         return data
 
@@ -380,12 +386,19 @@ class MappingMethod(DeserializationMethod):
         item_errors: Optional[ErrorDict] = None
         items: dict = {}
         for key, value in data.items():
+            item_error: Optional[ValidationError] = None
             try:
-                items[self.key_method.deserialize(key)] = self.value_method.deserialize(
-                    value
-                )
+                new_key = self.key_method.deserialize(key)
             except ValidationError as err:
-                item_errors = set_child_error(item_errors, key, err)
+                item_error = err
+            try:
+                new_value = self.value_method.deserialize(value)
+            except ValidationError as err:
+                item_error = merge_errors(item_error, err)
+            if item_error is None:
+                items[new_key] = new_value
+            else:
+                item_errors = set_child_error(item_errors, key, item_error)
         validate_constraints(data, self.constraints, item_errors)
         return items
 
